@@ -330,7 +330,7 @@ fn cmp_one(n: &Node, real: &CR, exp: &SR, cx: &mut CmpCtx) -> Result<(), (String
             r.map_err(here)
         }
         (CR::Comp(r), SR::Comp { .. }) if r.is_empty() && cx.lenient_empty_composite => Ok(()),
-        (CR::Comp(r), SR::Comp { all, size }) => {
+        (CR::Comp(r), SR::Comp { all, size, .. }) => {
             let shown = &all[..(*size).min(all.len())];
             let ks = |l: &[(Vec<i64>, u64, Vec<CR>)]| l.iter().map(|b| (b.0.clone(), b.1)).collect::<Vec<_>>();
             let es: Vec<(Vec<i64>, u64)> = shown.iter().map(|b| (b.0.clone(), b.1)).collect();
@@ -480,7 +480,7 @@ pub fn empty_counts_lean(nodes: &[Node]) -> String {
                 format!("L[{}]", (0..=k).map(|i| format!("{i}:0:{}", empty_counts_lean(&n.subs))).collect::<Vec<_>>().join(";"))
             }
             Agg::Filter { .. } => format!("F[0:{}]", empty_counts_lean(&n.subs)),
-            Agg::Composite { .. } => "N".into(),
+            Agg::Composite { .. } => "L[]".into(),
         }
     }
     match nodes.len() { 0 => "N".into(), 1 => one(&nodes[0]), _ => format!("({})({})", one(&nodes[0]), empty_counts_lean(&nodes[1..])) }
@@ -498,6 +498,10 @@ pub fn cr_counts_lean(nodes: &[Node], crs: &[CR], ranks: &Ranks) -> String {
             CR::List(b) if b.is_empty() && matches!(n.agg, Agg::Range { .. }) => empty_counts_lean(std::slice::from_ref(n)),
             CR::List(b) => format!("L[{}]", buckets(n, b, ranks)),
             CR::Filter(c, s) => format!("F[{c}:{}]", cr_counts_lean(&n.subs, s, ranks)),
+            CR::Comp(b) => {
+                let sources = match &n.agg { Agg::Composite { sources, .. } => sources.clone(), _ => vec![] };
+                format!("L[{}]", b.iter().map(|(k, c, s)| format!("{}:{c}:{}", ranks.comp_code(&n.name, &sources, k), cr_counts_lean(&n.subs, s, ranks))).collect::<Vec<_>>().join(";"))
+            }
             CR::Hits(vs) => format!("H[{}]", vs.iter().map(|v| format!("{v}:{v}")).collect::<Vec<_>>().join(";")),
             _ => "N".into(),
         }
